@@ -383,6 +383,12 @@ func runC05(c *Ctx, r *Report) {
 		}
 		r.Floor("R-C05.12", "insertions into the entry index in Join", nset, 1)
 	}
+	r.Doc("R-C05.13", "a slice handed out by a getter (the keys of an entry map, an entry's links, payload, key or signature) is never written in place by the caller: no element store, append onto it, in-place sort or copy into it, directly or through a helper — the objects are shared between logs and their content must stay what it was")
+	sharedSlicesReadOnly(c, r, "R-C05.13")
+	r.Doc("R-C05.14", "an error sent to the blank identifier is one the call cannot produce, unless the value received beside it is tested for nil: the linearised view is computed by a walk whose error the view ignores, so every failing return of the walk must be ruled out at that call (a walk that can stop early with an error makes Values() silently shorter than the previous view)")
+	discardedErrorsCannotOccur(c, r, "R-C05.14", func(fn *Fn) bool { return true }, map[string]string{
+		"f.fetchEntry": "a block that cannot be loaded or decoded is skipped by design (R-C12.5 keeps failed decodes nil)",
+	}, "entries that are in the log are missing from the view")
 	r.Doc("R-C05.11", "Entry.Copy builds the copy field by field (or replaces every reference-typed field of a struct copy on every path): the copy shares no map or clock with the original")
 	entryCopyFieldwise(c, r, "R-C05.11")
 	r.Doc("R-C05.9", "a copied entry shares no mutable map or clock object with its original: Copy stores a freshly made map and a fresh clock (the link-encrypting codec and the signer write into the copy's additional data)")
